@@ -78,6 +78,7 @@ type vpOp struct {
 	Prio0 int64             `json:"prio0"`
 	Then  *vpOp             `json:"then"` // tick: a transaction handed over right behind the harvest request, with no pause
 	Burst []vpOp            `json:"burst"` // txn: this and the following transactions arrive back to back on ONE agent connection
+	Replies []vpOp          `json:"replies"` // txn: answers given all at once while the processor is still busy with this transaction
 }
 
 type vpHistory struct {
@@ -811,7 +812,35 @@ func (r *vpRunner) run(h *vpHistory) (obs vpObs) {
 		case "nop":
 			// the transaction of this step was handed over with the harvest request of the step before
 		case "txn":
-			if len(op.Burst) > 0 {
+			if len(op.Replies) > 0 {
+				// the processor handles the transaction and then waits for the harness to take note of it: until the
+				// harness does (settle), the failure reports of the answers below find it busy
+				r.handleTxn(op, &step)
+				time.Sleep(300 * time.Microsecond)
+				type rel struct {
+					q    *vpReq
+					resp collector.RPMResponse
+				}
+				var rels []rel
+				for i := range op.Replies {
+					ro := &op.Replies[i]
+					if ro.N < len(r.reqs) {
+						q := r.reqs[ro.N]
+						r.reqs = append(r.reqs[:ro.N], r.reqs[ro.N+1:]...)
+						resp := vpOutcome(ro.Out.Kind)
+						if ro.Out.Kind == "fail" {
+							resp = vpErrOut(ro.Out)
+						}
+						rels = append(rels, rel{q, resp})
+					}
+				}
+				for _, x := range rels {
+					vpStable(x.q)
+					x.q.call.ret <- x.resp
+				}
+				time.Sleep(3 * time.Millisecond) // every sender goroutine has tried to report by now
+				r.settle(1 + len(rels))
+			} else if len(op.Burst) > 0 {
 				ops := []*vpOp{op}
 				for i := range op.Burst {
 					ops = append(ops, &op.Burst[i])
